@@ -11,8 +11,10 @@
 #include <stdlib.h>
 #include <string.h>
 
-static const char *keys[] = {"a", "b", "c", "a/b", "m~n", "", "0", "-", "x"};
-#define NKEYS 9
+/* member names: plain ones, and names whose escaped spelling ("~0", "~1") is itself the name of, or decodes in the wrong
+ * order to, another member ("~1" <-> "/", "~01" <-> "~1", "~" <-> "~0") */
+static const char *keys[] = {"a", "b", "c", "a/b", "m~n", "", "0", "-", "x", "~1", "/", "~", "~0", "~01", "x~1y", "1"};
+#define NKEYS 16
 
 static json_object *gen_val(int depth)
 {
@@ -93,7 +95,12 @@ static void rand_path(json_object *doc, char *out, int want_new)
 			{
 			case 0: strcat(out, "/-"); break;
 			case 1: sprintf(out + strlen(out), "/%d", len); break;
-			case 2: sprintf(out + strlen(out), "/%d", len + 1 + (int)vh_below(2)); break; /* beyond the end: must fail */
+			case 2:
+				if (vh_below(3))
+					sprintf(out + strlen(out), "/%d", len + 1 + (int)vh_below(2)); /* beyond the end: must fail */
+				else
+					strcat(out, vh_below(2) ? "/18446744073709551616" : "/4294967296"); /* 2^64, 2^32: far beyond */
+				break;
 			case 3: strcat(out, "/0"); break;
 			default: sprintf(out + strlen(out), "/%d", len ? (int)vh_below((uint32_t)len) : 0); break;
 			}
@@ -105,7 +112,12 @@ static void rand_path(json_object *doc, char *out, int want_new)
 		}
 	}
 	else if (vh_below(12) == 0)
-		strcat(out, vh_below(2) ? "/nope" : "/01");
+	{
+		/* nonexistent: a name, a non-canonical index, indices at the widths an implementation may compute in */
+		static const char *tails[] = {"/nope", "/01", "/nope", "/01", "/4294967296", "/4294967297", "/18446744073709551616", "/18446744073709551617",
+		                              "/18446744073709551615", "/9223372036854775808", "/340282366920938463463374607431768211456"};
+		strcat(out, tails[vh_below(sizeof tails / sizeof *tails)]);
+	}
 }
 static json_object *mkop(const char *op, const char *path, const char *from, json_object *value, int has_value)
 {
